@@ -59,6 +59,10 @@ const SHAPES: &[&str] = &[
     "p($t, $t) :- $G.",
     "{p($t, $t)} :- $G, not not r($t, $t).",
     "p($t, $u, $A) :- $G, r($u, $t).",
+    // one predicate symbol at two arities
+    "q($t) :- $G, q($A, $A).",
+    "p($t) :- $G, not p($t, $A), not not p.",
+    "{q($A, $t)} :- $G, q.",
 ];
 
 pub fn corpus(deep: bool) -> Vec<String> {
